@@ -64,6 +64,10 @@ pub fn pool() -> Vec<(&'static str, &'static str)> {
         // function `process` of another item
         ("public-memory-function", "contract Pm# { function process ( bytes memory data ) public payable returns ( uint256 ) { return data . length ; } }"),
         ("caller-of-same-name", "contract Ca# { function run# ( bytes memory blob ) external payable { process ( blob ) ; } function process ( bytes memory inner ) internal { inner = inner ; } }"),
+        // an assignment that is not inside any function: in the initialiser of a state variable, in the arguments of a base
+        // (what another item's constructor does must not make it a constructor assignment)
+        ("assignment-in-initialiser", "contract Ai# { uint256 x# ; uint256 y# = ( x# = 5 ) ; }"),
+        ("assignment-in-base-arguments", "contract Ab# is A0 ( z# = 1 ) { uint256 z# ; }"),
         ("library-of-named-struct", "library Ln# { struct Kind { uint128 a ; uint256 b ; uint128 c ; } function _k# ( Price p ) internal { } }"),
     ]
 }
@@ -316,7 +320,7 @@ pub fn run(tier: Tier) -> i32 {
     run.set("evaluations", calls);
     run.set("distinct_nontrivial", outcomes.len() as u64);
     run.set("item_templates", n as u64);
-    run.set("rule", "states = files built from all sequences with repetition of 2 items (x pragma first / between / last) and of 3 items (quick: every 4th; thorough: all, pragma first and last) from a pool of 43 item templates instantiated with fresh identifier suffixes; transitions = detector calls on the whole file and on each item-wise blanked file (28 detectors); oracle = set equality of the whole-file lines with the union of the per-item lines; non-trivial = distinct (detector, whole-file result) outcomes");
+    run.set("rule", "states = files built from all sequences with repetition of 2 items (x pragma first / between / last) and of 3 items (quick: every 4th; thorough: all, pragma first and last) from a pool of 45 item templates instantiated with fresh identifier suffixes; transitions = detector calls on the whole file and on each item-wise blanked file (28 detectors); oracle = set equality of the whole-file lines with the union of the per-item lines; non-trivial = distinct (detector, whole-file result) outcomes");
     run.set("bound_completed", if tier == Tier::Quick { "all pairs x 3 pragma positions; every 4th triple" } else { "all pairs and all triples" });
     run.set("samples", json!(seqs.iter().step_by(seqs.len() / 3 + 1).take(3).map(|(s, p)| json!({"items": s.iter().map(|&i| pool[i].0).collect::<Vec<_>>(), "pragma_position": p})).collect::<Vec<_>>()));
     run.finish()
